@@ -37,10 +37,11 @@ contract(O + "Destinations.send", props=["C08", "C12", "C07", "C13"], shards=6,
                 "_safe_unicode_dictionary#0": [("RENDER", "box(result)"), ("RENDER_OF", "box(dictionary)")],
                 "log_message#0": [("NREP", "NREP + 1"), ("REP", "REP + [E] + R"), ("MORE", "MORE + DOFF")]},
          # what a failure report says (C08: exception class, its text, a rendering of the affected message; sent through the same logger)
-         call_tokens={"log_message#0": "dget(new_msg, 'message_type') == 'eliot:destination_failure' and "
-                                       "dget(new_msg, 'exception') == cls_module_name(exception) and dget(new_msg, 'reason') == REASON and "
-                                       "dget(new_msg, 'message') == RENDER and REASON_OF == box(exception) and RENDER_OF == box(message) and "
-                                       "ite(logger is None, not contains(dict_of(new_msg), '__eliot_logger__'), dget(new_msg, '__eliot_logger__') == box(logger))"},
+         # (written over log_message's own parameters `message_type` / `fields` and over the error list, not over send's local names)
+         call_tokens={"log_message#0": "message_type == 'eliot:destination_failure' and "
+                                       "dget(fields, 'exception') == cls_module_name(seq(ERRS)[len(_done)]) and dget(fields, 'reason') == REASON and "
+                                       "dget(fields, 'message') == RENDER and REASON_OF == seq(ERRS)[len(_done)] and RENDER_OF == box(message) and "
+                                       "ite(logger is None, not contains(dict_of(fields), '__eliot_logger__'), dget(fields, '__eliot_logger__') == box(logger))"},
          after_raise={"Dest.__call__#0": [("NEW", "NEW + [Ev('offer', self, message, True, exc)]")]},
          requires=[("current-ok", "cur_ok()")],
          assumes=[("E12 ownership (checked syntactically by ownership_check.py): the message dict is neither the Destinations' _globalFields "
